@@ -1,6 +1,6 @@
 // instr rewrites a scratch copy of the nfpm module: it inserts
-// simyield.Here(<id>) at every function entry and at the top of every loop
-// body of the non-test files of the packaging packages (functions that take a
+// simyield.Here(<id>) at every function entry, at the top of every loop body
+// and between deferred calls in the non-test files of the packaging packages (functions that take a
 // lock are skipped: never park while holding one), and adds the tiny simyield
 // package to the copy. The harness installs a hook there (build tag
 // verifinstr) that turns each site into a scheduler yield point for client
@@ -49,6 +49,23 @@ func takesLock(fn *ast.FuncDecl) bool {
 	return found
 }
 
+// deferYields puts "defer simyield.Here(n)" in front of every defer statement
+// of a statement list: deferred calls run last-in first-out, so the yield runs
+// right after the deferred call that follows it in the source - a yield point
+// between any two deferred calls and after the last one (clean-up order:
+// Put before Close, Close before Unlock, ...).
+func deferYields(list []ast.Stmt, mk func(pos token.Pos) ast.Stmt) []ast.Stmt {
+	var out []ast.Stmt
+	for _, st := range list {
+		if d, ok := st.(*ast.DeferStmt); ok {
+			y := mk(d.Pos()).(*ast.ExprStmt)
+			out = append(out, &ast.DeferStmt{Call: y.X.(*ast.CallExpr)})
+		}
+		out = append(out, st)
+	}
+	return out
+}
+
 func main() {
 	root := os.Args[1]
 	site := 0
@@ -92,8 +109,12 @@ func main() {
 						s.Body.List = append([]ast.Stmt{mk(s.Pos(), "loop in "+fn.Name.Name)}, s.Body.List...)
 					case *ast.RangeStmt:
 						s.Body.List = append([]ast.Stmt{mk(s.Pos(), "loop in "+fn.Name.Name)}, s.Body.List...)
-					case *ast.FuncLit:
-						_ = s
+					case *ast.BlockStmt:
+						s.List = deferYields(s.List, func(pos token.Pos) ast.Stmt { return mk(pos, "between deferred calls of "+fn.Name.Name) })
+					case *ast.CaseClause:
+						s.Body = deferYields(s.Body, func(pos token.Pos) ast.Stmt { return mk(pos, "between deferred calls of "+fn.Name.Name) })
+					case *ast.CommClause:
+						s.Body = deferYields(s.Body, func(pos token.Pos) ast.Stmt { return mk(pos, "between deferred calls of "+fn.Name.Name) })
 					}
 					return true
 				})
